@@ -207,9 +207,28 @@ def origins(db, f, expr, depth=3, _seen=None):
         else:
             out.add(("def", e.get("path")))
         return out
+    if k == "Call" and path_ends(e.get("callee") or "", ("Option::Some", "Some", "Result::Ok", "Ok")) and e.get("args"):
+        return origins(db, f, e["args"][0], depth, _seen)      # the wrapped value
     if k in ("Call", "MethodCall"):
         c = callee(e)
         out.add(("call", c, e.get("id")))
+        # the value returned by a private helper of the same file: the origins of its result expressions, with the helper's
+        # parameters traced to this call's arguments
+        g = None
+        for kk in (e.get("resolved"), e.get("callee"), c):
+            if kk and kk in db.fns:
+                g = db.fns[kk]
+                break
+        if g is not None and g.hir and not g.trait and g.info.get("vis") != "Public" and g.info.get("kind") in ("Fn", "AssocFn") \
+                and (g.info.get("span") or "").split(":")[0] == (f.info.get("span") or "").split(":")[0] and (g.key, "ret") not in _seen and len(_seen) < 400:
+            _seen.add((g.key, "ret"))
+            args = call_args(e)
+            for r in _result_exprs(g.hir):
+                for o in origins(db, g, r, 0, _seen):
+                    if o[0] == "param" and o[1] == g.key and o[2] < len(args):
+                        out |= origins(db, f, args[o[2]], depth, _seen)
+                    elif o[0] not in ("unknown",):
+                        out.add(o)
         # transparent adaptors: follow the receiver
         if k == "MethodCall" and e["method"] in ("iter", "iter_mut", "into_iter", "get", "get_mut", "as_slice",
                                                   "as_ref", "as_mut", "unwrap", "expect", "copied", "cloned",
@@ -240,9 +259,47 @@ def origins(db, f, expr, depth=3, _seen=None):
                 out |= origins(db, f, fl["e"], depth, _seen)
         return out
     if k in ("If", "Match", "Block"):
-        out.add(("unknown", k))
+        # the value is one of the tails (and, for an inlined helper body, one of its helper-returns)
+        rs = _result_exprs(e, top=False)
+        if not rs:
+            out.add(("unknown", k))
+        for r in rs:
+            out |= origins(db, f, r, depth, _seen)
         return out
     out.add(("unknown", k))
+    return out
+
+
+def _result_exprs(root, top=True):
+    """the expressions whose value a body / block / if / match can evaluate to: its tails, plus (for a function body or an inlined
+    helper block) the operands of `return` / helper-return"""
+    out = []
+
+    def tails(n):
+        n = peel(n)
+        if not isinstance(n, dict):
+            return
+        k = n.get("k")
+        if k == "Block":
+            if "expr" in n:
+                tails(n["expr"])
+        elif k == "If":
+            tails(n["then"])
+            if "else" in n:
+                tails(n["else"])
+        elif k == "Match" and n.get("src") not in ("TryDesugar", "ForLoopDesugar"):
+            for a in n["arms"]:
+                tails(a["body"])
+        elif k in ("Ret", "BreakValue", "Break", "Continue"):
+            pass
+        else:
+            out.append(n)
+    tails(root)
+    if top or (isinstance(root, dict) and root.get("inl")):
+        for n, ps in walk(root):
+            if n.get("k") in (("Ret", "BreakValue") if top else ("BreakValue",)) and "e" in n and not any(p.get("k") == "Closure" for p in ps) \
+                    and not (n.get("mac") and "desugar:QuestionMark" in n["mac"]):
+                tails(n["e"])
     return out
 
 
